@@ -385,6 +385,25 @@ func ruleExactShortcuts(w *World, r *RuleResult) {
 func ruleOverflowReports(w *World, r *RuleResult) {
 	chk := func(fn, guardContains string) {
 		f := w.fn(fn)
+		// the negative edge: sign(v) < 0 where v is a non-destination operand of the function or a local
+		// (its copy); written by shape, not by the names of locals
+		negEdge := func(cond ssa.Value) bool {
+			bo, isB := cond.(*ssa.BinOp)
+			if !isB || bo.Op != token.LSS {
+				return false
+			}
+			k, isK := bo.Y.(*ssa.Const)
+			call, isC := bo.X.(*ssa.Call)
+			if !isK || !isC || ci(k) != 0 || !strings.HasSuffix(guardContains, ").Sign") || w.calleeName(call) != guardContains {
+				return false
+			}
+			base := basePtr(call.Common().Args[0])
+			if pr, isP := base.(*ssa.Parameter); isP && f != nil {
+				return pr != f.Params[destArgIndex(w, f)]
+			}
+			_, isA := base.(*ssa.Alloc)
+			return isA
+		}
 		if f == nil {
 			r.anchorMissing(fn)
 			return
@@ -398,20 +417,19 @@ func ruleOverflowReports(w *World, r *RuleResult) {
 		for _, c := range cs {
 			ok := false
 			for _, g := range guardsAt(c.Block()) {
-				s := w.exprOf(f, g.Cond).String()
-				if g.Val && strings.Contains(s, guardContains) {
+				if g.Val && negEdge(g.Cond) {
 					ok = true
 				}
 			}
 			if ok {
-				r.ok(key, w.instrPos(c), "under "+guardContains, true)
+				r.ok(key, w.instrPos(c), "under "+guardContains+"(operand) < 0", true)
 			} else {
-				r.bad(key, w.instrPos(c), "negateOverflowFlags is not confined to the edge "+guardContains)
+				r.bad(key, w.instrPos(c), "negateOverflowFlags is not confined to the edge "+guardContains+"(operand) < 0")
 			}
 		}
 	}
-	chk("(*Context).Exp", "(*Decimal).Sign(x) < 0")
-	chk("(*Context).integerPower", "(*BigInt).Sign(&b) < 0")
+	chk("(*Context).Exp", "(*Decimal).Sign")
+	chk("(*Context).integerPower", "(*BigInt).Sign")
 	if f := w.fn("(*Context).Exp"); f != nil {
 		key := "(*Context).Exp | early overflow only beyond 23·precision"
 		cc := w.conditionConsts()
@@ -474,8 +492,12 @@ func ruleSubIsAdd(w *World, r *RuleResult) {
 			r.ok(key, w.instrPos(c), "false", false)
 		case g == "(*Context).Sub" && isK && val:
 			r.ok(key, w.instrPos(c), "true", false)
+		case g == "(*Context).Add" || g == "(*Context).Sub":
+			r.bad(key, w.instrPos(c), "Add must call add with false and Sub with true; found "+w.exprOf(c.Parent(), c.Common().Args[si]).String())
 		default:
-			r.bad(key, w.instrPos(c), "only Add (false) and Sub (true) may call add; found "+w.exprOf(c.Parent(), c.Common().Args[si]).String())
+			// another internal user of add (a helper choosing the direction itself) says nothing about Sub ≡ Add(−y)
+			r.ok(key, w.instrPos(c), "internal caller, not part of the Add/Sub pair", false)
+			continue
 		}
 		// operands forwarded unchanged
 		pf := c.Parent()
